@@ -290,4 +290,56 @@ theorem prettyL_eq_renderL (ci : SCls → ClsInfo) (hci : ∀ c, ci c = assumedM
       prettyL_eq_renderL ci hci f hf u hu pwt iv ns pn (k + size n) l hpn h.2]
 end
 
+/-! ### the pre-order numbering gives distinct identities -/
+
+mutual
+theorem ids_range (ci : SCls → ClsInfo) (f : Fmt) (pwt : Option (List PStr)) : ∀ (n : Node) (pn : Option PStr) (k : Nat),
+    ∀ x ∈ BS.Pretty.ids (toP ci f pwt pn k n), k ≤ x ∧ x < k + size n
+  | .str c s, pn, k => by simp [toP, BS.Pretty.ids]
+  | .tag i ks, pn, k => by
+    intro x hx
+    by_cases hv : (ks.isEmpty && i.cbe) = true
+    · simp [toP, hv, BS.Pretty.ids] at hx
+    · have hv' : (ks.isEmpty && i.cbe) = false := by simpa using hv
+      simp only [toP, hv', Bool.false_eq_true, if_false, BS.Pretty.ids, List.mem_cons] at hx
+      simp only [size]
+      rcases hx with rfl | hx
+      · omega
+      · have := idsL_range ci f pwt ks (some i.name) (k + 1) x hx
+        omega
+theorem idsL_range (ci : SCls → ClsInfo) (f : Fmt) (pwt : Option (List PStr)) : ∀ (ns : List Node) (pn : Option PStr) (k : Nat),
+    ∀ x ∈ BS.Pretty.idsL (toPL ci f pwt pn k ns), k ≤ x ∧ x < k + sizeL ns
+  | [], _, _ => by simp [toPL, BS.Pretty.idsL]
+  | n :: ns, pn, k => by
+    intro x hx
+    simp only [toPL, BS.Pretty.idsL, List.mem_append] at hx
+    simp only [sizeL]
+    rcases hx with hx | hx
+    · have := ids_range ci f pwt n pn k x hx
+      omega
+    · have := idsL_range ci f pwt ns pn (k + size n) x hx
+      omega
+end
+
+mutual
+theorem distinct_toP (ci : SCls → ClsInfo) (f : Fmt) (pwt : Option (List PStr)) : ∀ (n : Node) (pn : Option PStr) (k : Nat),
+    BS.Pretty.distinct (toP ci f pwt pn k n) = true
+  | .str c s, pn, k => by simp [toP, BS.Pretty.distinct]
+  | .tag i ks, pn, k => by
+    by_cases hv : (ks.isEmpty && i.cbe) = true
+    · simp [toP, hv, BS.Pretty.distinct]
+    · have hv' : (ks.isEmpty && i.cbe) = false := by simpa using hv
+      simp only [toP, hv', Bool.false_eq_true, if_false, BS.Pretty.distinct, Bool.and_eq_true, Bool.not_eq_true',
+        distinctL_toPL ci f pwt ks (some i.name) (k + 1), and_true]
+      simp only [List.contains_eq_mem, decide_eq_false_iff_not]
+      intro hm
+      have := idsL_range ci f pwt ks (some i.name) (k + 1) k hm
+      omega
+theorem distinctL_toPL (ci : SCls → ClsInfo) (f : Fmt) (pwt : Option (List PStr)) : ∀ (ns : List Node) (pn : Option PStr) (k : Nat),
+    BS.Pretty.distinctL (toPL ci f pwt pn k ns) = true
+  | [], _, _ => rfl
+  | n :: ns, pn, k => by
+    simp [toPL, BS.Pretty.distinctL, distinct_toP ci f pwt n pn k, distinctL_toPL ci f pwt ns pn (k + size n)]
+end
+
 end BS.PrettyReparse
